@@ -33,6 +33,9 @@ func (f *Frame) callCommon(c *ssa.CallCommon, in ssa.Instruction, st *PState, rt
 	for _, a := range c.Args {
 		args = append(args, f.val(a, st))
 	}
+	if ex.aim != nil {
+		return f.aimCall(c, args, in, st, rt)
+	}
 	if c.IsInvoke() {
 		recv := f.val(c.Value, st)
 		f.safety(st, "nil-deref", in, not(eq(app("itag", recv.T), "0")), "method call on possibly nil interface "+c.Method.Name())
@@ -67,9 +70,6 @@ func (f *Frame) callCommon(c *ssa.CallCommon, in ssa.Instruction, st *PState, rt
 			callee = v.Clos.Fn.(*ssa.Function)
 			bindings = v.Clos.Bindings
 		}
-	}
-	if callee != nil && ex.aim != nil {
-		f.aimObligation(callee, args, in, st)
 	}
 	if callee == nil {
 		if tc := ex.P.ContractFor(ex.top); tc != nil && tc.DynPure {
@@ -110,6 +110,9 @@ func (f *Frame) canInline(fn *ssa.Function) bool {
 	}
 	if n > ex.maxInline {
 		return false
+	}
+	if ex.aim != nil {
+		return true // aim mode: loop heads forget everything the body may re-aim; no invariants needed
 	}
 	// loops need invariants: only inline loop-free bodies (or bodies whose contract supplies invariants)
 	for _, b := range fn.Blocks {
@@ -154,7 +157,9 @@ func (f *Frame) inline(fn *ssa.Function, args, bindings []Val, in ssa.Instructio
 	nf.freeVars = bindings
 	ex.depth++
 	ex.stack = append(ex.stack, fn)
+	ex.frames = append(ex.frames, nf)
 	rets := nf.run(st.clone())
+	ex.frames = ex.frames[:len(ex.frames)-1]
 	ex.stack = ex.stack[:len(ex.stack)-1]
 	ex.depth--
 	if len(rets) == 0 {
@@ -214,8 +219,19 @@ func (f *Frame) havocCall(name string, in ssa.Instruction, st *PState, rt types.
 
 func (f *Frame) havocAll(st *PState) {
 	ex := f.ex
+	var pre *PState
+	if ex.origins != nil {
+		pre = st.clone()
+	}
 	st.heap = map[string]string{}
 	st.epoch = ex.newEpoch()
+	if ex.origins != nil {
+		mod := ex.curMod
+		if mod == nil {
+			mod = ex.P.aimInfo().mod(ex.top) // a loop head: whatever the function under verification may re-aim
+		}
+		ex.origins[st.epoch] = &epochOrigin{pre: pre, mod: mod}
+	}
 	nb := ex.vc.Fresh("brk", SInt)
 	ex.vc.Assume(fmt.Sprintf("(>= %s %s)", nb, st.brk))
 	st.brk = nb
@@ -956,8 +972,16 @@ func (f *Frame) loopHeader(h *ssa.BasicBlock, li *loopInfo, st *PState, edges []
 	}
 	// 4. havoc
 	before := st.clone()
-	if li.modAll {
+	if li.modAll || ex.aim != nil {
+		if ex.aim != nil {
+			ex.curMod = ex.P.aimInfo().modOfBlocks(f.fn, li.body)
+		}
 		f.havocAll(st)
+		ex.curMod = nil
+		if ex.aim != nil {
+			f.keepUnwrittenCells(before, st, func(b *ssa.BasicBlock) bool { return li.body[b] }, nil)
+			ex.keepCapturedCells(before, st)
+		}
 	} else {
 		for _, hn := range sortedKeys(li.mods) {
 			hs := ex.hsorts[hn]
@@ -968,7 +992,7 @@ func (f *Frame) loopHeader(h *ssa.BasicBlock, li *loopInfo, st *PState, edges []
 		ex.vc.Assume(fmt.Sprintf("(>= %s %s)", nb, st.brk))
 		st.brk = nb
 	}
-	if !li.modAll {
+	if !li.modAll && ex.aim == nil {
 		f.keepUnwrittenCells(before, st, func(b *ssa.BasicBlock) bool { return li.body[b] }, nil)
 	}
 	for _, phi := range phis {
@@ -1085,6 +1109,10 @@ func (f *Frame) dryRun(h *ssa.BasicBlock, li *loopInfo, st *PState) {
 	}
 	savedEpochN := ex.epochN
 	savedIter := f.iterOrd
+	var savedOrigins map[int]*epochOrigin
+	if ex.origins != nil {
+		savedOrigins = copyOrigins(ex.origins)
+	}
 	ex.dryDepth++
 
 	dst := st.clone()
@@ -1200,6 +1228,9 @@ func (f *Frame) dryRun(h *ssa.BasicBlock, li *loopInfo, st *PState) {
 	ex.vc.unsupported = ex.vc.unsupported[:savedUns]
 	ex.reprCache = savedRepr
 	ex.epochN = savedEpochN
+	if savedOrigins != nil {
+		ex.origins = savedOrigins
+	}
 	f.iterOrd = savedIter
 	f.vals = savedVals
 	f.exit = savedExit
@@ -1552,6 +1583,9 @@ func (f *Frame) keepUnwrittenCells(before, after *PState, inBody func(*ssa.Basic
 		hn, hs := ex.heapOfType(al.Type().(*types.Pointer).Elem())
 		bt, ok1 := before.heap[hn]
 		at, ok2 := after.heap[hn]
+		if ex.aim != nil && ok1 && !ok2 {
+			at, ok2 = ex.H(after, hn, hs), true
+		}
 		if !ok1 || !ok2 || bt == at {
 			continue
 		}
